@@ -426,7 +426,7 @@ pub fn show_label(lab: &directory::Label) {
 
 fn is_displayed(user: u8,finfo: &directory::FileInfo,opt: &DirOptions) -> bool {
     let mut ans = true;
-    let pattern_match = match_wildcard_pattern(&opt.pattern, &finfo.name, &finfo.typ).expect("bad wildcard pattern");
+    let pattern_match = match_wildcard_pattern(&opt.pattern, &finfo.name, &finfo.typ).unwrap_or(false); // a name on the disk that the pattern rules do not cover is matched by nothing
     ans &= pattern_match && !opt.exclude || !pattern_match && opt.exclude;
     ans &= user==finfo.user;
     ans &= !(opt.dir && !opt.sys && finfo.system);
